@@ -143,6 +143,17 @@ impl TreeNodeWithPreviousValue {
         // version of this node.
         if self.latest_node.last_epoch > target_epoch {
             if let Some(previous_node) = &self.previous_node {
+                if previous_node.last_epoch > target_epoch {
+                    // Only one previous version is kept. If that one is also newer than the
+                    // target epoch, the version which was current at the target epoch is gone:
+                    // report that instead of serving a node from a later epoch.
+                    return Err(StorageError::NotFound(format!(
+                        "TreeNode {:?} at epoch {} (oldest retained version is of epoch {})",
+                        NodeKey(self.label),
+                        target_epoch,
+                        previous_node.last_epoch
+                    )));
+                }
                 Ok(previous_node.clone())
             } else {
                 // no previous, return not found
